@@ -149,6 +149,21 @@ static void sigsvc_execute(const Plan &p, const ExecOpts &, Result &r) {
                         int rc = L01(secp256k1_ecdsa_recover(ctx, &rec, &rsig, msg));
                         r.cmp();
                         if (!rc || memcmp(&rec, &pk, sizeof pk) != 0) { r.violate("C01", "recover", "secp256k1_ecdsa_recover", cell + ": recovery does not return the signer's public key"); break; }
+                        // the other recovery ids (a damaged or guessed id): recovery either fails or returns a key under which the signature verifies
+                        bool bad = false;
+                        for (int rid2 = 0; rid2 < 4 && !bad; rid2++) {
+                            if (rid2 == recid) continue;
+                            secp256k1_ecdsa_recoverable_signature r2; secp256k1_pubkey q; secp256k1_ecdsa_signature c2;
+                            if (!L01(secp256k1_ecdsa_recoverable_signature_parse_compact(ctx, &r2, sig64, rid2))) continue;
+                            int rc2 = L01(secp256k1_ecdsa_recover(ctx, &q, &r2, msg));
+                            r.cmp();
+                            if (rc2) {
+                                L01(secp256k1_ecdsa_recoverable_signature_convert(ctx, &c2, &r2));
+                                if (!L01(secp256k1_ecdsa_verify(ctx, &c2, msg, &q))) { r.violate("C01", "recover", "secp256k1_ecdsa_recover", cell + ": recovery id " + std::to_string(rid2) + " returned a key under which the signature does not verify"); bad = true; }
+                                else r.probe("other_recid_recovers_valid_key");
+                            }
+                        }
+                        if (bad) break;
                     }
                     if (win == 0 && seq[0] == O_PASS) {   // pass-through at attempt 0 == noncefp NULL
                         secp256k1_ecdsa_signature s3; uint8_t b3[64];
